@@ -25,7 +25,9 @@ Shapes == <<
   <<<<<<0, 0>>, <<9, 9>>, <<9, 0>>, <<0, 9>>>>>>,            \* 12 bow-tie
   <<Sq, <<<<5, 5>>>>>>,                                      \* 13 ordinary + single point
   <<Sq, <<<<3, 3>>, <<3, 7>>, <<7, 7>>, <<7, 3>>>>>>,        \* 14 polygon with hole
-  <<<<<<0, 0>>, <<5, 0>>, <<5, 0>>, <<5, 5>>, <<0, 5>>, <<0, 0>>, <<0, 0>>>>>>   \* 15 duplicates + closing
+  <<<<<<0, 0>>, <<5, 0>>, <<5, 0>>, <<5, 5>>, <<0, 5>>, <<0, 0>>, <<0, 0>>>>>>,  \* 15 duplicates + closing
+  <<<<<<-5, 5>>, <<15, 6>>>>>>,                              \* 16 a line that crosses the other shapes
+  <<<<<<-4, -3>>, <<5, 12>>, <<14, -2>>>>, <<<<2, 2>>>>>>    \* 17 a crossing polyline + single point
 >>
 NS == Len(Shapes)
 Mags == 0..5                       \* 1, 2^29, 2^40, 2^52, 2^61, 2^62
@@ -41,10 +43,14 @@ Offs == {Rec(ep, s, 1, m, <<jt, et, d>>) : ep \in {"offset", "offset_tree", "exp
 Rcs == {Rec(ep, s, 1, m, <<r>>) : ep \in {"rectclip", "rectcliplines", "exp_rectclip64", "exp_rectcliplines64", "rectclipD"}, s \in 1..NS, m \in 0..2, r \in 1..3}
 Mks == {Rec(ep, s, c, m, <<closed>>) : ep \in {"minksum", "minkdiff", "exp_minksum64", "exp_minkdiff64"}, s \in 1..NS, c \in 1..NS, m \in 0..2, closed \in {0, 1}}
 Utl == {Rec(ep, s, 1, m, <<k>>) : ep \in {"trim", "simplify", "rdp", "strip", "pip", "misc"}, s \in 1..NS, m \in 0..2, k \in 0..3}
-Cases == Bool \cup Offs \cup Rcs \cup Mks \cup Utl
+(* short call SEQUENCES on one object (object lifetime and sharing): offsetting into a polytree that is destroyed before the next *)
+(* Execute into paths; a ReuseableDataContainer64 holding open and closed paths in either order / combined with AddOpenSubject   *)
+Seqs == {Rec("offseq", s, 1, m, <<jt, et, d>>) : s \in 1..NS, m \in 0..2, jt \in {0, 2}, et \in 0..4, d \in {1, 2}}
+        \cup {Rec("reuse", s, c, m, <<ct, fr, ord>>) : s \in {4, 6, 11, 13, 16, 17}, c \in {1, 8, 10, 12, 14}, m \in {0, 2, 5}, ct \in 1..4, fr \in {0, 1}, ord \in 0..2}
+Cases == Bool \cup Offs \cup Rcs \cup Mks \cup Utl \cup Seqs
 
 ASSUME ndJsonSerialize(IOEnv.OUT, SetToSeq(Cases))
-ASSUME PrintT(<<"OUT", Cardinality(Cases), Cardinality(Bool), Cardinality(Offs), Cardinality(Rcs), Cardinality(Mks), Cardinality(Utl)>>)
+ASSUME PrintT(<<"OUT", Cardinality(Cases), Cardinality(Bool), Cardinality(Offs), Cardinality(Rcs), Cardinality(Mks), Cardinality(Utl), Cardinality(Seqs)>>)
 VARIABLE z
 Init == z = 0
 Next == z' = z
